@@ -901,7 +901,9 @@ void __sanitizer_cov_trace_pc_guard_init(uint32_t* start, uint32_t* stop) {
   for (uint32_t* x = start; x < stop; x++) *x = ++n;
   g_cov_n = n + 1;
 }
-void __sanitizer_cov_pcs_init(const uintptr_t*, const uintptr_t*) {}
+static const uintptr_t* g_pcs_beg = nullptr;
+static const uintptr_t* g_pcs_end = nullptr;
+void __sanitizer_cov_pcs_init(const uintptr_t* beg, const uintptr_t* end) { if (!g_pcs_beg) { g_pcs_beg = beg; g_pcs_end = end; } }
 void __sanitizer_cov_trace_pc_guard(uint32_t* guard) {
   uint32_t g = *guard;
   if (g_cov && g < g_cov_n && !g_cov[g]) { g_cov[g] = 1; if (SH) SH->edges_new++; }
@@ -909,6 +911,22 @@ void __sanitizer_cov_trace_pc_guard(uint32_t* guard) {
 }
 
 }  // extern "C"
+
+// per-function edge coverage from the pc table (guard i+1 belongs to pcs[2*i])
+namespace xs {
+void coverage_by_function(std::map<std::string, std::pair<int, int>>& out) {
+  out.clear();
+  if (!g_pcs_beg || !g_cov) return;
+  size_t n = (size_t)(g_pcs_end - g_pcs_beg) / 2;
+  for (size_t i = 0; i < n && i + 1 < g_cov_n; i++) {
+    const Sym* s = sym_lookup(g_pcs_beg[2 * i]);
+    if (!s) continue;
+    auto& e = out[s->name];
+    e.second++;
+    if (g_cov[i + 1]) e.first++;
+  }
+}
+}  // namespace xs
 
 // ==================================================================== locale configurations
 namespace xs {
